@@ -228,7 +228,8 @@ Lemma progs_ok_all : forall sc progs, progs_ok sc progs -> Forall (msg_ok25 sc) 
 Proof.
   intros sc progs H. unfold all_msgs. apply Forall_forall. intros m I. apply in_flat_map in I. destruct I as (p & IP & IM).
   unfold progs_ok in H. rewrite Forall_forall in H. specialize (H p IP). unfold prog_msgs in IM. apply in_flat_map in IM.
-  destruct IM as (c & IC & IM). rewrite Forall_forall in H. specialize (H c IC). destruct c as [m' cu ni|l]; cbn [call_ok call_msgs] in *.
+  destruct IM as (c & IC & IM). rewrite Forall_forall in H. specialize (H c IC). destruct c as [m' cu ni|m' cu ni|l]; cbn [call_ok call_msgs] in *.
+  - destruct IM as [<-|[]]. destruct H as (_ & _ & H). exact H.
   - destruct IM as [<-|[]]. destruct H as (_ & _ & H). exact H.
   - rewrite Forall_forall in H. apply H. exact IM.
 Qed.
@@ -304,7 +305,7 @@ Qed.
 
 (* pm_pipeline, all threads done and the queue drained *)
 Theorem c25_oracle_pipelined_lemma : forall progs sched,
-  good s0 -> s_batch s0 = [] -> progs_ok sc progs -> Forall sorted_out (all_msgs progs) -> distinct (subm progs) ->
+  good s0 -> s_batch s0 = [] -> progs_okp sc progs -> Forall sorted_out (all_msgs progs) -> distinct (subm progs) ->
   let c := prun sc now sched (pinit s0 progs) in
   quiescent c = true ->
   exists wire,
@@ -312,10 +313,10 @@ Theorem c25_oracle_pipelined_lemma : forall progs sched,
     c25_phase_ok n0 (subm progs) wire (s_next_send (p_sess c)) (p_attached (s_per s0))
                  (apps sc now s0 n0 (map snd (p_pushed c))) = true.
 Proof.
-  intros progs sched G B PO SO DI c Q.
-  destruct (c25_pipelined_lemma sc now WS NB s0 progs sched G B PO) as (IQ & _ & NS & SR & _ & _ & IL & _ & QF).
+  intros progs sched G B POP SO DI c Q. pose proof (progs_okp_ok sc progs POP) as PO.
+  destruct (c25_pipelined_lemma sc now WS NB s0 progs sched G B POP) as (IQ & _ & NS & SR & _ & _ & IL & _ & QF).
   fold c in IQ, NS, SR, IL, QF. destruct (QF Q) as (PP & WI & _ & TH).
-  destruct (pinv_run sc now WS NB s0 progs sched G B PO) as [_ _ _ _ _ _ ID]. fold c in ID.
+  destruct (pinv_run sc now WS NB s0 progs sched G B POP) as [_ _ _ _ _ _ ID]. fold c in ID.
   exists (expect sc now s0 n0 (map snd (p_pushed c))). split; [exact WI|].
   rewrite PP in NS, SR.
   apply oracle_from_lin; try assumption.
@@ -376,6 +377,8 @@ Definition d_o (c : N) : msg := d_msg (demo_order [c]).
 Definition d_hb : msg := d_msg (mkSpec [48] [] [(112, [104])] 0 false true).
 (* thread 0: one batch of three orders; thread 1: an order, then a Heartbeat *)
 Definition d_progs : list (list call) := [[CBatch [d_o 97; d_o 98; d_o 99]]; [CSend (d_o 120) 0 false; CSend d_hb 0 false]].
+(* the same with the by-reference overload for thread 1 (pm_thread) *)
+Definition d_progs_ref : list (list call) := [[CBatch [d_o 97; d_o 98; d_o 99]]; [CSendRef (d_o 120) 0 false; CSendRef d_hb 0 false]].
 (* pm_pipeline: thread 1's order is queued between the first and the second message of thread 0's batch *)
 Definition d_sched_pipe : list actor :=
   [App 0; App 0; App 1; Writer; Writer; App 0; App 0; App 0; App 1; Writer; Writer; Writer].
@@ -393,14 +396,14 @@ Proof.
   - vm_compute. discriminate.
 Qed.
 
-Lemma d_progs_ok : progs_ok demo_schema d_progs.
+Lemma d_progs_ok : progs_okp demo_schema d_progs /\ progs_ok demo_schema d_progs_ref.
 Proof.
-  unfold d_progs, progs_ok. repeat constructor; vm_compute; reflexivity.
+  split; [unfold d_progs, progs_okp|unfold d_progs_ref, progs_ok]; repeat constructor; vm_compute; reflexivity.
 Qed.
 
 Lemma c25_nonvacuous_lemma :
   wf_schema demo_schema = true /\ nonul (sc_begin demo_schema) = true /\
-  good d_s0 /\ s_batch d_s0 = [] /\ progs_ok demo_schema d_progs /\ s_next_send d_s0 = 2 /\
+  good d_s0 /\ s_batch d_s0 = [] /\ progs_okp demo_schema d_progs /\ progs_ok demo_schema d_progs_ref /\ s_next_send d_s0 = 2 /\
   (* pm_pipeline: the queue order has the foreign order inside the batch; five messages 2..6 go out, the four
      application messages are stored, nothing stays buffered *)
   (let c := prun demo_schema T0 d_sched_pipe (pinit d_s0 d_progs) in
@@ -409,14 +412,14 @@ Lemma c25_nonvacuous_lemma :
      [(m_body (d_o 97), false); (m_body (d_o 120), true); (m_body (d_o 98), false); (m_body (d_o 99), true); (m_body d_hb, true)] /\
    map fst (p_pushed c) = [0; 1; 0; 0; 1]%nat /\
    seqs_of (p_wire c) = [2; 3; 4; 5; 6] /\ map fst (p_store (s_per (p_sess c))) = [2; 3; 4; 5] /\
-   s_next_send (p_sess c) = 7 /\ s_batch (p_sess c) = [] /\ map pt_rets (p_threads c) = [[3]; [1; 1]]) /\
+   s_next_send (p_sess c) = 7 /\ s_batch (p_sess c) = [] /\ map pt_rets (p_threads c) = [[Some 3]; [Some 1; Some 1]]) /\
   (* pm_thread *)
-  (let c := trun demo_schema T0 d_sched_thread (tinit d_s0 d_progs) in
+  (let c := trun demo_schema T0 d_sched_thread (tinit d_s0 d_progs_ref) in
    map fst (t_lin c) = [1; 0; 0; 0; 1]%nat /\ seqs_of (t_wire c) = [2; 3; 4; 5; 6] /\
    map fst (p_store (s_per (t_sess c))) = [2; 3; 4; 5] /\ map tt_rets (t_threads c) = [[3]; [1; 1]]).
 Proof.
   split; [reflexivity|]. split; [reflexivity|]. destruct d_good as [G B]. split; [exact G|]. split; [exact B|].
-  split; [exact d_progs_ok|]. split; [reflexivity|]. split; vm_compute; repeat split; reflexivity.
+  destruct d_progs_ok as [O1 O2]. split; [exact O1|]. split; [exact O2|]. split; [reflexivity|]. split; vm_compute; repeat split; reflexivity.
 Qed.
 
 Lemma c25_wire_content_lemma : forall (sc : schema) (now : Z), wf_schema sc = true ->
